@@ -207,6 +207,56 @@ def full_cases(ctx, n):
     return out
 
 
+def fault_cases(ctx, n):
+    """histories aimed at the listed use-after-free families and their neighbourhood (the model's fault flag and the sanitizers must agree on each):
+    htp_tx_destroy from a callback at every hook and call number around completion; a request side that stops inside a header block
+    (callback STOP/ERROR, hard limit) followed by unmatched responses; interim 100 responses with refusing callbacks"""
+    rng = ctx.rng
+    out = []
+    for _ in range(n):
+        kind = rng.choice(["destroy", "destroy", "stale", "stale", "interim"])
+        cfg = sconnp.cfg_str(p=rng.choice([0, 1, 5, 9]), auto=rng.choice([0, 0, 1]))
+        ops = ["O"]
+        script = "-"
+        if kind == "destroy":
+            N = rng.randint(1, 3)
+            for i in range(N):
+                a, tr = sconnp.build_request(rng, i)
+                b, _ = sconnp.build_response(rng, i, head_method=(tr["method"] == b"HEAD"))
+                for piece in sconnp.cut(a, sconnp.split_points(a, rng, rng.choice(["whole", "random"]))):
+                    ops.append("Q" + piece.hex())
+                for piece in sconnp.cut(b, sconnp.split_points(b, rng, rng.choice(["whole", "random"]))):
+                    ops.append("S" + piece.hex())
+            script = "%d:%d:6" % (rng.choice([0, 1, 2, 3, 4, 5, 9, 10, 11, 12, 13, 14, 16, 17, 18]), rng.randrange(N + 1))
+            if rng.random() < 0.3:
+                h2 = rng.randrange(19)
+                if not script.startswith("%d:" % h2):      # one entry per (hook, call): the two drivers resolve duplicates differently
+                    script += ";%d:%d:%d" % (h2, rng.randrange(2), rng.choice([1, 2, 3, 6]))
+        elif kind == "stale":
+            hard = rng.choice([18000, 18000, 40, 24])
+            cfg = sconnp.cfg_str(p=rng.choice([0, 1, 9]), hard=hard, soft=hard // 2)
+            rq = b"GET /x HTTP/1.1\r\nHost: a\r\nX-Long: " + b"v" * rng.choice([1, 10, 60]) + rng.choice([b"", b"\r\n", b"\r\nY: z", b"\r\n\r\n"])
+            for piece in sconnp.cut(rq, sconnp.split_points(rq, rng, rng.choice(["whole", "random"]))):
+                ops.append("Q" + piece.hex())
+            for _k in range(rng.randint(1, 3)):
+                ops.append("S" + b"HTTP/1.1 200 OK\r\nContent-Length: 0\r\n\r\n".hex())
+            if rng.random() < 0.5:
+                script = "%d:%d:%d" % (rng.choice([3, 3, 1, 0, 4]), rng.randrange(2), rng.choice([2, 3]))
+        else:
+            rq = b"POST /x HTTP/1.1\r\nHost: a\r\nExpect: 100-continue\r\nContent-Length: 3\r\n\r\nabc"
+            rs = b"HTTP/1.1 100 Continue\r\n" + rng.choice([b"\r\n", b"X: y\r\n\r\n", b""]) + b"HTTP/1.1 200 OK\r\nContent-Length: 2\r\n\r\nhi"
+            for piece in sconnp.cut(rq, sconnp.split_points(rq, rng, "random")):
+                ops.append("Q" + piece.hex())
+            for piece in sconnp.cut(rs, sconnp.split_points(rs, rng, rng.choice(["whole", "random"]))):
+                ops.append("S" + piece.hex())
+            ops.append("S" + b"HTTP/1.1 200 OK\r\nContent-Length: 0\r\n\r\n".hex())
+            script = "%d:%d:%d" % (rng.choice([17, 17, 13, 12, 16, 18]), rng.randrange(2), rng.choice([2, 3, 6]))
+        if rng.random() < 0.8:
+            ops.append("C")
+        out.append(sconnp.case(ops, cfg=cfg, script=script))
+    return out
+
+
 # ---------------------------------------------------------------- running the library and classifying what the sanitizers say
 
 def find_leaks(ctx, exe, cases, tag, limit=3):
@@ -312,10 +362,10 @@ def report_events(ctx, events, suite, counts):
 def check(ctx):
     pr = vf.proof_step(ctx, "Properties_C01")
     thorough = ctx.thorough()
-    n = 12000 if thorough else 2500
+    n = 50000 if thorough else 2500
     counts = {}
     # ---- (1) the modelled part: all generator classes, library vs model on the whole output line
-    cases = cp.corpus_cases(ctx, chunkings=3 if thorough else 1) + cp.general_cases(ctx, n, n)
+    cases = cp.corpus_cases(ctx, chunkings=3 if thorough else 1) + cp.general_cases(ctx, n, n, res_flags={"destroy_uaf": True, "stale_receiver": True, "connect_rerun": True, "null_tx_callback": True}) + fault_cases(ctx, n // 4)
     ncases = len(cases)
     impl_raw, events = run_classified(ctx, cases, "S-connp")
     live = [i for i, o in enumerate(impl_raw) if o is not None]
@@ -369,7 +419,7 @@ def check(ctx):
     ctx.log("S-connp: %d histories, %d sanitizer reports (%d also flagged by the model), %d model faults without report, %d full-line mismatches"
             % (ncases, len(crashed), both, len(silent), len(mm)))
     # ---- (2) the library alone with everything switched on
-    nf = 20000 if thorough else 3000
+    nf = 100000 if thorough else 3000
     fcases = full_cases(ctx, nf)
     fout, fevents = run_classified(ctx, fcases, "S-connp-full")
     ctx.cov["evaluations"] += nf
